@@ -4,6 +4,7 @@ package main
 
 import (
 	"fmt"
+	"os"
 	"go/ast"
 	"go/token"
 	"go/types"
@@ -58,7 +59,9 @@ func (P *Program) verifyFunction(key string, opts VerifyOpts) (res *FnResult) {
 				res.ErrDetail = string(debug.Stack())
 			default:
 				res.Err = fmt.Errorf("internal: %v", r)
-				res.ErrDetail = string(debug.Stack())
+				if os.Getenv("VCGO_DEBUG") != "" {
+					res.ErrDetail = string(debug.Stack())
+				}
 			}
 		}
 		res.Obls = c.obls
@@ -91,6 +94,13 @@ func (P *Program) verifyFunction(key string, opts VerifyOpts) (res *FnResult) {
 		if !cl.inSlice(opts.Prop) {
 			continue
 		}
+		c.sc.assume(c.evalClause(env, cl))
+	}
+	for _, cl := range ct.Premises {
+		if !cl.inSlice(opts.Prop) {
+			continue
+		}
+		c.trust("premise of " + key + ": " + cl.Text)
 		c.sc.assume(c.evalClause(env, cl))
 	}
 	c.entry = st.clone()
@@ -215,7 +225,7 @@ func (P *Program) sliceFunctions(prop string) []string {
 }
 
 func (ct *Contract) mentions(prop string) bool {
-	for _, l := range [][]*Clause{ct.Requires, ct.Ensures, ct.Invs, ct.Uses} {
+	for _, l := range [][]*Clause{ct.Requires, ct.Ensures, ct.Invs, ct.Uses, ct.Sites} {
 		for _, cl := range l {
 			if cl.hasTag(prop) {
 				return true
